@@ -510,9 +510,6 @@ func (d *Decoder) DecodePackedInt64() ([]int64, error) { //nolint: dupl // FALSE
 		if n == 0 {
 			return nil, fmt.Errorf("invalid data at byte %d: %w", d.offset, ErrInvalidVarintData)
 		}
-		if v > math.MaxInt64 {
-			return nil, fmt.Errorf("invalid data at byte %d: %w", d.offset, ErrValueOverflow)
-		}
 		nRead += uint64(n)
 		d.offset += n
 		res = append(res, int64(v))
